@@ -171,7 +171,7 @@ CLAIMED = {
              "document skeleton. The Lean tree-builder and tokenizer models make every Python exception source and every "
              "loop's fuel explicit and reproduce the class and site of every exception the real parser raised (this is how the "
              "non-termination, assertion, AttributeError and RecursionError defects fixed in /repo were found). Proved on the "
-             "model (C02c, C03b, C03c; ~900 theorems): the tokenizer never runs out of fuel and from the entry states raises nothing "
+             "model (C02c, C03b, C03c, C03d; ~950 theorems): the tokenizer never runs out of fuel and from the entry states raises nothing "
              "but one recorded ValueError site; every helper loop of the tree builder has enough fuel in every state; nested "
              "phase re-dispatch is at most 6 deep for all phases and tokens (sharp); the EOF loop and the token loop terminate; "
              "C03_total_fuel_partial: Parser.parse never runs out of fuel except possibly in the reprocess loop and Dom.toTree. "
@@ -179,8 +179,12 @@ CLAIMED = {
              "(12 900 lines): Reach_Inv — every state reachable from init by any token sequence (documents and fragments in any "
              "container) satisfies the invariant Inv (phase registers, stack shape, cell/row/select scope facts, head position), "
              "hence the guards G1-G5 hold and all five stuck states are UNREACHABLE by parsing (stuckState_unreachable, "
-             "C03c_reachable_guards). Still open: the decreasing measure for the reprocess loop on Inv states "
-             "(reprocessLoop_total_of_measure reduces totality to it), so C03_total_fuel stays partial for that one site; "
+             "C03c_reachable_guards). C03d: the rank of the phase register strictly drops on every round that hands the token "
+             "back for non-tag tokens, start tags outside 109 keyed names and end tags outside 74 keyed names, hence from every "
+             "reachable state and for every such token the reprocess loop and TB.step never run out of fuel "
+             "(C03d_reprocess_total_partial_easy2, C03d_step_total_easy2). Still open: the keyed start/end tags (the measure "
+             "needs the stack length as well; reprocessLoop_total_of_measure reduces totality to it) and arena acyclicity for "
+             "Dom.toTree, so C03_total_fuel stays partial for those; "
              "absence of the other exception kinds in the tree builder is not proved (search only).",
         note="search on the real code + model with explicit exception sites; termination theorems on the model are partial (reprocess loop).",
         technique="differential correspondence with explicit-exception Lean model + Lean 4 termination theorems on the model + totality search on the real code",
@@ -293,7 +297,7 @@ CLAIMED = {
         design="6/C10"),
     "C09": dict(
         category="proof",
-        text="84 Lean theorems over a hand model of the sanitizer with ALL allow-lists as parameters (defaults extracted each "
+        text="87 Lean theorems (incl. the leaf table obligations C09Tables: the pinned URI-valued, url()-carrying and local-href sets are on the default lists) over a hand model of the sanitizer with ALL allow-lists as parameters (defaults extracted each "
              "run) and every regular expression translated from Python's own parse into a Lean regex AST run by a small "
              "backtracking engine with sre semantics (engine soundness AND completeness proved against declarative semantics; "
              "IGNORECASE translated by evaluating Python's compiled one-character items): for every "
